@@ -268,5 +268,10 @@ def main(kind, pid, seed, jobs):
         with open(os.path.join(HERE, 'evidence', 'selftest-%s.json' % kind), 'w') as f:
             json.dump({'summary': summary, 'results': res}, f, indent=1, sort_keys=True)
             f.write('\n')
+    if kind == 'seeded-multiseed' and not pid:
+        # (the multi-seed run subsumes the single-seed one)
+        with open(os.path.join(HERE, 'evidence', 'selftest-seeded.json'), 'w') as f:
+            json.dump({'summary': summary, 'results': res}, f, indent=1, sort_keys=True)
+            f.write('\n')
     print('SELFTEST %s: %s' % (kind, json.dumps(summary)))
     return 0 if ok else 1
